@@ -113,9 +113,9 @@ type wireFact struct {
 
 // wireAlt: an equivalent formulation of the same connection (e.g. append in loop order instead of an indexed store), by obligation key.
 var wireAlt = map[string][]string{
-	"desc.Chord.Describe|order":                 {"call builtin.append(phi", ",[desc.Attribute.Describe(p0.attr,chord.Mapper.GetChordAttributes(p0.mapper,p1)#0[i].Name,p2,p3)#0])"},
+	"desc.Chord.Describe|order": {"call builtin.append(phi", ",[desc.Attribute.Describe(p0.attr,chord.Mapper.GetChordAttributes(p0.mapper,p1)#0[i].Name,p2,p3)#0])"},
 	// the generated name: prefix then the number in decimal, by formatting or by concatenation
-	"chord.GenerateAttributes|name": {"store var<chord.Attribute>.Name <- ", "#0+strconv.FormatUint(p0.Value,10)"},
+	"chord.GenerateAttributes|name":             {"store var<chord.Attribute>.Name <- ", "#0+strconv.FormatUint(p0.Value,10)"},
 	"astconv.ValuesConverterImpl.Convert|order": {"call builtin.append(phi", ",[astconv.ValuesConverterImpl.convertValue(p0,p1.Values[i])#0])"},
 }
 
@@ -570,7 +570,6 @@ func ruleNameDegree(c *Ctx) {
 	c.check(problem == "", name, c.pos(fn.Pos()), name, "letter distance = index(y) - index(x) + 1, searching y onwards from x", name+": "+problem)
 }
 
-
 // dataDependsOn: some value satisfying pred is among the transitive operands of v (through locals, closures' captured
 // variables and the bodies of the closures that are called).
 func dataDependsOn(v ssa.Value, pred func(ssa.Value) bool) bool {
@@ -647,7 +646,6 @@ func dataDependsOn(v ssa.Value, pred func(ssa.Value) bool) bool {
 	}
 	return walk(v, 0)
 }
-
 
 // isRepoCallOrInvoke: the call goes to a function or interface method of the repository.
 func (c *Ctx) isRepoCallOrInvoke(call *ssa.Call) bool {
